@@ -22,6 +22,7 @@ type Style struct {
 	DocStart      bool `json:"doc_start,omitempty"`      // leading "---"
 	DocEnd        bool `json:"doc_end,omitempty"`        // trailing "..."
 	CRLF          bool `json:"crlf,omitempty"`           // \r\n line ends
+	BOM           bool `json:"bom,omitempty"`            // YAML classes: leading UTF-8 byte order mark
 
 	FlowPM      int `json:"flow_pm,omitempty"`       // yaml-mixed: chance that a collection switches to flow style
 	FlowBreakPM int `json:"flow_break_pm,omitempty"` // line break after a ',' inside flow collections
@@ -48,6 +49,13 @@ type Style struct {
 	// NoAliasUnder: no alias / merge key is used below members with these names
 	// (lets a generator keep clear of a known defect shape).
 	NoAliasUnder []string `json:"no_alias_under,omitempty"`
+	// ProtectRefPaths: a node that a local JSON pointer ("$ref": "#/a/b/c") has to
+	// traverse (every node on the path except the target) is never replaced by an
+	// alias and never uses a merge key.
+	ProtectRefPaths bool `json:"protect_ref_paths,omitempty"`
+	// NoMergeIn: no merge key is written directly into the mapping that is the
+	// value of a member with one of these names (e.g. "properties").
+	NoMergeIn []string `json:"no_merge_in,omitempty"`
 
 	// YAML11PM: chance to write plain a string for which YAML11Only holds
 	// (on/off/yes/no/y/n, 12:30, =). DatePM: the same for YYYY-MM-DD strings.
@@ -151,6 +159,8 @@ type emitter struct {
 	noAliasKeys map[string]bool
 	noY11       int
 	noY11Keys   map[string]bool
+	protect     map[*Node]bool
+	parentKey   string // name of the member whose value is being written ("" for sequence items / root)
 
 	afterLiteral bool // the previous thing written was a block scalar: no comment/blank insertion
 }
@@ -421,6 +431,11 @@ func (e *emitter) refDecision(n *Node) (alias, anchor string) {
 		return "", ""
 	}
 	h := e.hashes[n]
+	if e.protect[n] {
+		if _, ok := e.anchors[h]; ok {
+			return "", "" // would be an alias: write it in full instead
+		}
+	}
 	isColl := n.Kind == Arr && len(n.A) > 0 || n.Kind == Obj && len(n.K) > 0
 	isScalar := n.Kind == Str || n.Kind == Num || n.Kind == Bool || n.Kind == Null
 	if name, ok := e.anchors[h]; ok {
@@ -467,6 +482,14 @@ func (e *emitter) refDecision(n *Node) (alias, anchor string) {
 // mapping, returns that anchor and the number of members it covers.
 func (e *emitter) mergePrefix(n *Node) (string, int) {
 	if e.hashes == nil || e.st.MergePM <= 0 || e.noAlias > 0 || len(n.K) < 2 {
+		return "", 0
+	}
+	for _, k := range e.st.NoMergeIn {
+		if k == e.parentKey && k != "" {
+			return "", 0
+		}
+	}
+	if e.protect[n] {
 		return "", 0
 	}
 	// explicit members must not repeat a merged key (the merged one would lose)
@@ -530,6 +553,9 @@ func (e *emitter) yamlDoc(root *Node) {
 		e.prefixWant = map[uint64]bool{}
 		e.anchors = map[uint64]string{}
 		e.hashTree(root)
+		if e.st.ProtectRefPaths {
+			e.protect = refPathNodes(root)
+		}
 		if len(e.st.NoAliasUnder) > 0 {
 			e.noAliasKeys = map[string]bool{}
 			for _, k := range e.st.NoAliasUnder {
@@ -549,6 +575,9 @@ func (e *emitter) yamlDoc(root *Node) {
 	if e.st.Indent > 8 {
 		e.st.Indent = 8
 	}
+	if e.st.BOM {
+		e.buf.WriteString("\xef\xbb\xbf")
+	}
 	if e.st.DocStart {
 		e.buf.WriteString("---")
 		e.trailComment()
@@ -567,8 +596,7 @@ func (e *emitter) yamlDoc(root *Node) {
 	default:
 		e.blockSeq(root, 0, false, 0)
 	}
-	e.afterLiteral = false
-	e.interstitial(0)
+	e.interstitial(0) // (writes nothing right after a block scalar)
 	if e.st.DocEnd {
 		e.buf.WriteString("..." + e.nl)
 	}
@@ -664,6 +692,7 @@ func (e *emitter) blockMap(n *Node, ind int, inlineFirst bool, depth int) {
 	for i := start; i < len(n.K); i++ {
 		lead()
 		leave := e.enterKey(n.K[i])
+		e.parentKey = n.K[i]
 		if !(i == start && inlineFirst) && e.rng.chance(e.st.ExplicitPM) {
 			e.used.ExplicitKeys++
 			e.buf.WriteString("? ")
@@ -691,6 +720,7 @@ func (e *emitter) blockSeq(n *Node, ind int, inlineFirst bool, depth int) {
 		}
 		e.afterLiteral = false
 		e.buf.WriteString("-")
+		e.parentKey = ""
 		e.afterIndicator(x, ind, true, false, depth+1)
 	}
 }
@@ -836,6 +866,7 @@ func (e *emitter) flowBody(n *Node, minCol, depth int) {
 				e.buf.WriteString(",")
 				brk()
 			}
+			e.parentKey = ""
 			e.flow(x, minCol, depth+1)
 		}
 		e.buf.WriteString("]")
@@ -866,6 +897,7 @@ func (e *emitter) flowBody(n *Node, minCol, depth int) {
 			} else {
 				e.buf.WriteString(": ")
 			}
+			e.parentKey = n.K[i]
 			e.flow(n.V[i], minCol, depth+1)
 			leave()
 		}
@@ -1023,4 +1055,77 @@ func writeYAMLEscape(b *strings.Builder, r rune, form int) {
 	default:
 		fmt.Fprintf(b, `\U%08x`, r)
 	}
+}
+
+// refPathNodes: the nodes local JSON pointers have to traverse (RFC 6901 over
+// the document tree; "#/…" fragments are percent-decoded first), targets excluded.
+func refPathNodes(root *Node) map[*Node]bool {
+	out := map[*Node]bool{}
+	root.Walk(func(_ []string, n *Node) {
+		if n.Kind != Obj {
+			return
+		}
+		for i, k := range n.K {
+			v := n.V[i]
+			if k != "$ref" || v.Kind != Str || !strings.HasPrefix(v.S, "#/") {
+				continue
+			}
+			ptr := pctDecode(v.S[1:])
+			cur := root
+			parts := strings.Split(ptr[1:], "/")
+			for _, part := range parts {
+				part = strings.ReplaceAll(strings.ReplaceAll(part, "~1", "/"), "~0", "~")
+				out[cur] = true
+				var next *Node
+				switch cur.Kind {
+				case Obj:
+					next = cur.Get(part)
+				case Arr:
+					idx := 0
+					ok := part != ""
+					for _, c := range part {
+						if c < '0' || c > '9' || idx > 1<<20 {
+							ok = false
+							break
+						}
+						idx = idx*10 + int(c-'0')
+					}
+					if ok && idx < len(cur.A) {
+						next = cur.A[idx]
+					}
+				}
+				if next == nil {
+					break
+				}
+				cur = next
+			}
+		}
+	})
+	return out
+}
+
+func pctDecode(s string) string {
+	var b strings.Builder
+	for i := 0; i < len(s); i++ {
+		if s[i] == '%' && i+2 < len(s) {
+			h := func(c byte) int {
+				switch {
+				case c >= '0' && c <= '9':
+					return int(c - '0')
+				case c >= 'a' && c <= 'f':
+					return int(c-'a') + 10
+				case c >= 'A' && c <= 'F':
+					return int(c-'A') + 10
+				}
+				return -1
+			}
+			if x, y := h(s[i+1]), h(s[i+2]); x >= 0 && y >= 0 {
+				b.WriteByte(byte(x<<4 | y))
+				i += 2
+				continue
+			}
+		}
+		b.WriteByte(s[i])
+	}
+	return b.String()
 }
